@@ -392,11 +392,12 @@ func Generate(t *rapid.T, opt Options) *Model {
 			x.Fields = append(x.Fields, &Field{Name: "boo", Type: TypeRef{Name: "String", Kind: KScalar}, Owner: -1})
 			continue
 		}
-		n := 1 + g.pick(2, "nifields")
+		n := 1 + g.pick(3, "nifields")
 		for i := 0; i < n; i++ {
 			if x.OverNode {
 				owner := g.pick(k, "ifowner")
-				x.Fields = append(x.Fields, g.newField([]int{owner}, owner, used, 20))
+				// interface fields are often object references (cross-service selections below an interface matter)
+				x.Fields = append(x.Fields, g.newField([]int{owner}, owner, used, 40))
 			} else {
 				f := g.newField(x.Home, -1, used, 0)
 				x.Fields = append(x.Fields, f)
